@@ -17,6 +17,7 @@ FORMULAS = [
     "{r} | a", "a <= b", "[a] = 99999999999999999999", "[a] > 9223372036854775807", "-(a b c", "", "\"only a comment\"",
     "(", "a &", "[a, b", "exists # a", "exists a #", "a \"c\" b", "٣", "a\x00b", "[a,] < 0", "mu X # (exists X # X)",
     "[a, b] < [a]", "[[a] = 1, b] >= 1", "a nand b nor c", "all a # [a, b] = [b]", "if [a,b]=1 then {x} else -c",
+    "(gfp X # X & a) & X", "X & (gfp X # X & a)", "(exists x # (x & a)) & (b | x)", "nu X # ((mu X # (X | a)) & X)", "if a then b else c",
 ]
 ORDERINGS = [None, "a", "b a", "x a", "c b a", "a a b", "z a b", ", ; a", "", "\"c\" a"]
 OPTSETS = [
@@ -379,10 +380,12 @@ def _random_formulas(n, seed):
     return out
 
 
-def sweep_table(repo, budget, seed, binary=None):
+def sweep_table(repo, budget, seed, binary=None, aspect=None):
     """`rsbdd -t [-f F]` and `-v` against the reference evaluator of the replay crate: header = the free variables; rows are
     disjoint, their result column is right on every assignment they cover, and they cover all / the satisfying / the
-    falsifying assignments for filter any / true / false; -v lists exactly the satisfying assignments over free names."""
+    falsifying assignments for filter any / true / false; -v lists exactly the satisfying assignments over free names.
+    aspect = "vars": report only what concerns the variable columns / names (run for C09); "panic": only panics."""
+    rows_too = aspect is None
     import json
     from . import replay as R
     if binary is None:
@@ -424,6 +427,8 @@ def sweep_table(repo, budget, seed, binary=None):
                 if r[0] != 0 or pr is None:
                     return {"mode": "clitable", "case": case, "expected": "a table", "actual": f"exit {r[0]} {r[2][:200]}"}, checked, ""
                 names, rows = pr
+                if aspect == "panic":
+                    continue
                 if sorted(names) != sorted(free) or len(set(names)) != len(names):
                     return {"mode": "clitable", "case": case, "expected": f"columns = the free variables {free}", "actual": f"{names}"}, checked, ""
                 in_order = [v for v in vars_ if v in free]
@@ -432,7 +437,7 @@ def sweep_table(repo, budget, seed, binary=None):
                 if filt is None:
                     base_table = [l for l in r[1].split("\n") if l.startswith("|")]
                 covered = {}
-                for cells in rows:
+                for cells in (rows if rows_too else []):
                     want_res = cells[-1]
                     for a in _expand(names, cells[:-1]):
                         if a in covered:
@@ -441,7 +446,7 @@ def sweep_table(repo, budget, seed, binary=None):
                         if (want_res == "True") != (a in sat):
                             return {"mode": "clitable", "case": case, "expected": f"result column right on every covered assignment (e.g. {sorted(a)} is {'true' if a in sat else 'false'})", "actual": r[1][:400]}, checked, ""
                 expect_cov = set(allasg) if filt in (None, "any") else (sat if filt == "true" else set(allasg) - sat)
-                if set(covered) != expect_cov:
+                if rows_too and set(covered) != expect_cov:
                     return {"mode": "clitable", "case": case, "expected": f"rows cover exactly {len(expect_cov)} assignments for filter {filt or 'any'}", "actual": f"{len(covered)} covered\n" + r[1][:400]}, checked, ""
             # -v: the satisfying assignments by name
             checked += 1
@@ -467,8 +472,10 @@ def sweep_table(repo, budget, seed, binary=None):
                     got.add(frozenset(true_names) | frozenset(n for n, b in zip(any_names, bits) if b))
             if bad:
                 return {"mode": "clitable", "case": case, "expected": f"only free variables {free} in the answer", "actual": bad}, checked, ""
-            if got != sat:
+            if rows_too and got != sat:
                 return {"mode": "clitable", "case": case, "expected": f"-v lists exactly the {len(sat)} satisfying assignments", "actual": r[1][:400]}, checked, ""
+            if not rows_too:
+                continue
             v_lines = [l for l in r[1].split("\n") if l.strip().endswith(";")]
             if f not in fixed:
                 continue
@@ -512,14 +519,14 @@ def sweep_table(repo, budget, seed, binary=None):
     return None, checked, ""
 
 
-def table_case(repo, case):
+def table_case(repo, case, aspect=None):
     import json
     c = json.loads(case)
     global TABLE_FORMULAS
     sf = TABLE_FORMULAS
     try:
         TABLE_FORMULAS = [c["formula"]]
-        r, n, err = sweep_table(repo, 0, 0)
+        r, n, err = sweep_table(repo, 0, 0, aspect=aspect)
     finally:
         TABLE_FORMULAS = sf
     return r, err
